@@ -180,8 +180,10 @@ func (txn *writeTxnState) modify(meta TableMeta, guard revisionGuard, newData an
 	if oldExists {
 		val := reflect.ValueOf(obj.data)
 		if val.Kind() == reflect.Pointer {
+			// With an interface-typed table the replaced object need not be
+			// a pointer, in which case it cannot be the same object.
 			oldVal := reflect.ValueOf(oldObj.data)
-			if val.UnsafePointer() == oldVal.UnsafePointer() {
+			if oldVal.Kind() == reflect.Pointer && val.UnsafePointer() == oldVal.UnsafePointer() {
 				panic(fmt.Errorf(
 					"Insert() of the same object (%T) back into the table. Is the immutable object being mutated?",
 					obj.data))
